@@ -6,10 +6,24 @@ import (
 	"fmt"
 	"os"
 	"os/exec"
+	"path/filepath"
 	"strings"
 )
 
-var driverPath = "/verif/lean/.lake/build/bin/sjdriver"
+// the compiled Lean model that belongs to this copy of the machinery: <root>/bin/sjh → <root>/lean/.lake/build/bin/sjdriver
+// (a snapshot or an isolated copy of /verif must not talk to the driver of another copy, which may be rebuilt meanwhile)
+var driverPath = func() string {
+	if p := os.Getenv("SJDRIVER"); p != "" {
+		return p
+	}
+	if self, err := os.Executable(); err == nil {
+		p := filepath.Join(filepath.Dir(filepath.Dir(self)), "lean", ".lake", "build", "bin", "sjdriver")
+		if _, err := os.Stat(p); err == nil {
+			return p
+		}
+	}
+	return "/verif/lean/.lake/build/bin/sjdriver"
+}()
 
 // runDriver pipes all lines to the compiled Lean model and returns one reply per line.
 func runDriver(lines []string) ([]string, error) {
